@@ -361,13 +361,18 @@ def run(ck: Check) -> int:
                 if sk1 != sum(1 for e in log1 if e[0] == 'S'):
                     ck.report(Failing('get_skipped() != number of on_skip calls', desc, sum(1 for e in log1 if e[0] == 'S'), sk1))
                 nh = sum(1 for e in log1 if e[0] in 'RDFMSE')
-                points = [('hook', k) for k in range(0, nh + 1)] + [('yield', k) for k in range(0, len(res1) + 1)]
+                points = [('init', 0)] + [('hook', k) for k in range(0, nh + 1)] + [('yield', k) for k in range(0, len(res1) + 1)]
                 for kind, k in points:
                     sc = case.new_script(**kw)
+                    # kill() from on_init (added after seeded change C15f: the constructor cleared the flag after the hook)
+                    sc.kill_in_init = kind == 'init'
                     obj = case.obj(sc)
                     try:
                         with common.time_limit(20):
-                            if kind == 'hook':
+                            if kind == 'init':
+                                for v in obj.imatch():
+                                    sc.log.append(K.yv(v))
+                            elif kind == 'hook':
                                 if k == 0:
                                     obj.kill()
                                 else:
@@ -424,6 +429,8 @@ def run(ck: Check) -> int:
                     rt = _routing_ok(evs, sc)
                     if rt:
                         ck.report(Failing('routing (aborted run): ' + rt, inp, 'routing as stated', ' '.join(evs)))
+                    if kind == 'init' and (not aborted or res):
+                        ck.report(Failing('kill() from on_init: the object is not aborted / the run yields values', inp, [True, []], [aborted, res]))
                     if kind == 'hook' and 0 < k <= sum(1 for e in evs if e[0] in 'RDFMSE') and not aborted:
                         ck.report(Failing('object not aborted after kill() from a hook', inp, True, False))
                     if aborted and (again != [] or log_again != ['R', 'P1'] or sk_again != 0):
